@@ -111,7 +111,7 @@ func checkC13(cx *Ctx, r *Report) {
 		return nil
 	}
 	form := one("form", cx.stepsReaching(ch, matchFnKey(w, "provider.getLogoutRequestFromRequest")))
-	decode := one("decode", cx.stepsReaching(ch, matchFnKey(w, "xml.DecodeLogoutRequest")))
+	decode := one("decode", cx.stepsReaching(ch, matchDecoder(w, "samlp.LogoutRequestType")))
 	timeS := one("time", cx.stepsByFactory(ch, "logic", "provider.checkIfRequestTimeIsStillValid"))
 	sp := one("sp", cx.stepsReaching(ch, matchStorage("GetEntityByID")))
 	vf := cx.vflow(kLogout)
